@@ -500,6 +500,7 @@ func runC01(c *Ctx, tier string) {
 
 	// ---- O8: ID-keyed caches
 	runIDCaches(c, "C01-O8", "")
+	runEncoderKeysByType(c, "C01-X1")
 	runValueIDFromEncoder(c, "C01-T1")
 	runControlDoesNotEndScan(c, "C01-C1")
 
